@@ -1074,11 +1074,11 @@ Proof.
   assert (Hbf : c_base_fail (calls s' k) = false).
   { revert Hs. cbn [step]. destruct (c_phase (calls s k)) eqn:Ep; try discriminate.
     - destruct w; [|discriminate]. destruct (first_step _ _ _ _ _) as [c'|] eqn:E; [|discriminate].
-      intros [= <-]. cbn. rewrite upd_same. rewrite (first_step_own_basefail _ _ _ _ _ E).
+      intros [= <-]. cbn. rewrite upd_same. fin_rw. rewrite (first_step_own_basefail _ _ _ _ _ E).
       apply (CI_basefail _ (I_call s I k)). rewrite Ep. reflexivity.
     - destruct (match w with WNormal => true | WInterrupt => _ end); [|discriminate].
       destruct (body_step _ _ _ _ _) as [c'|] eqn:E; [|discriminate].
-      intros [= <-]. cbn. rewrite upd_same. rewrite (body_step_own_basefail _ _ _ _ _ E).
+      intros [= <-]. cbn. rewrite upd_same. fin_rw. rewrite (body_step_own_basefail _ _ _ _ _ E).
       apply (CI_basefail _ (I_call s I k)). rewrite Ep. reflexivity. }
   refine (conj F1 (conj F2 (conj F3 (conj F5 (conj F6 (conj Hp (conj Hfut (conj Ho (conj Hbf (conj Hinv _)))))))))).
   cbn [step]. rewrite Hp. cbn. rewrite Hbf, Bool.orb_false_r, upd_same. cbn.
@@ -1100,29 +1100,19 @@ Proof. intros H. cbn. rewrite H. cbn. destruct (is_nil (members s)); repeat spli
 
 (* global fields after a step, by op: used for the two stability lemmas below *)
 Ltac step_cases s o :=
-  destruct o as [k kd|k|k w sv f|k|k|k|cr|exc| |]; cbn [step];
-  [ destruct (c_phase (calls s k)); [destruct (running s) eqn:?| | | | | | |]
-  | destruct (c_phase (calls s k)); [| |destruct (is_left (host s)) eqn:?| | | | |]
-  | destruct (c_phase (calls s k));
-      [| | | |destruct w; [destruct (first_step _ _ _ _ _)|]
-       |destruct (match w with WNormal => true | WInterrupt => _ end); [destruct (body_step _ _ _ _ _)|]| |]
-  | destruct (c_phase (calls s k))
-  | destruct (handed_out (calls s k)); [destruct (future_cancel (calls s k))|]
-  | destruct (c_inflight (calls s k))
-  |
-  | destruct (host s) eqn:?
-  | destruct (host s) eqn:?;
-      [|destruct (woken s); [destruct (is_nil (members s))|]
-       |destruct (f4_fixed s && negb (is_nil (members s)))|] ]; cbn.
+  destruct o; cbn [step];
+  repeat match goal with
+         | |- context [match ?x with _ => _ end] => destruct x eqn:?
+         end; cbn in *.
 
 Lemma running_false_step s o : running s = false -> running (fst (step s o)) = false.
-Proof. intros H. step_cases s o; auto; congruence. Qed.
+Proof. intros H. step_cases s o; try congruence; auto. Qed.
 
 Theorem portal_running_false_forever s ops : running s = false -> running (final step s ops) = false.
 Proof. revert s. induction ops as [|o r IH]; intros s H; cbn; [exact H|]. apply IH, running_false_step, H. Qed.
 
 Lemma left_step s o : host s = HLeft -> host (fst (step s o)) = HLeft.
-Proof. intros H. step_cases s o; auto; congruence. Qed.
+Proof. intros H. step_cases s o; try congruence; auto. Qed.
 
 Theorem portal_left_forever s ops : host s = HLeft -> host (final step s ops) = HLeft.
 Proof. revert s. induction ops as [|o r IH]; intros s H; cbn; [exact H|]. apply IH, left_step, H. Qed.
